@@ -267,15 +267,14 @@ Proof.
   split; [| split; [| reflexivity]].
   2: { destruct (exec_ext x (w_st w)) as [E | (p & Hp & E)]; auto.
        rewrite E. pose proof (i_ext _ I) as X. unfold view in X. now rewrite Hp in X. }
-  destruct x;
-    try (apply (inv_plain_write _ w eq_refl); auto; intros; discriminate).
+  destruct x; cbn [next_await];
+    try (apply inv_plain_write; [reflexivity | intros; discriminate | intros; discriminate | exact I]).
   - (* SBegin *)
     destruct w as [[c pd] aw]. destruct I as [Iext Iidc Iidv Irc Irv Iaw Inoaw Istart].
     cbn [step_ok next_await exec w_st w_await comm pend view] in *.
     destruct pd; cbn in OK; try discriminate. cbn [w_st w_await comm pend view] in *.
-    constructor; cbn [w_st w_await comm pend view]; auto using ext_refl.
-    + intros t r E. rewrite (Inoaw eq_refl) in E. discriminate.
-    + intros E; discriminate.
+    constructor; cbn [w_st w_await comm pend view]; auto using ext_refl;
+      try (intros t r E; rewrite (Inoaw eq_refl) in E; discriminate); try (intros E; discriminate).
   - (* SCommit *)
     destruct w as [[c pd] aw]. destruct I as [Iext Iidc Iidv Irc Irv Iaw Inoaw Istart].
     cbn [step_ok next_await exec w_st w_await comm pend view] in *.
